@@ -251,3 +251,100 @@ def run_history(stream, hist, reinsert=()):
         d["ret"] = ival(r.data.address) if r.data.instr else None
         steps.append(d)
     return g, steps
+
+
+# ---------------------------------------------------------------------------------------
+# histories on ONE long-lived lsweep object, interleaved with graph insertions
+# ---------------------------------------------------------------------------------------
+
+def table_path(p, start, n):
+    """the instruction stream from `start` as given by independent `read_instruction` calls (at most
+    n instructions).  returns (dumps, status): 'complete' (the reader gives nothing after the last
+    one), 'open' (n reached), 'unmodelled' (the reader raises or yields a non-instruction)."""
+    out, a = [], start
+    for _ in range(n):
+        t = reader_table(p, [a])[a]
+        if t == "none":
+            return out, "complete"
+        if not isinstance(t, list):
+            return out, "unmodelled"
+        out.append(t)
+        a += len(t[1])
+    t = reader_table(p, [a])[a]
+    return out, ("complete" if t == "none" else "open")
+
+
+def run_sweep_history(p, ops):
+    """run `ops` on one lsweep object `z` of program p and on graphs named by the ops
+    (0, 1, ... fresh cfg.graph objects, "G" the analysis' own graph z.G):
+      ["gb", loc, as_cst, g]            b = z.getblock(loc); if g is not None: graph(g).add_vertex(cfg.node(b))
+      ["gbcut", loc, as_cst, addr]      b = z.getblock(loc); b.cut(addr)      (the caller trims its own block)
+      ["ib", loc, as_cst, n, ins]       the first n blocks of z.iterblocks(loc); for [k, g] in ins: insert block k in graph g
+    Every handed-out block is used for at most one insertion.  returns one record per op:
+    {"res": "ok", "blocks": [dumps], "props": [[support, length, raw]], "exhausted": bool,
+     "cut_before": an earlier handed-out block with this start address was cut since,
+     "ins": [{"g", "first", "n", + dump_graph}]}  or {"res": "raise", ...}; stops at the first exception."""
+    cpu = p.cpu
+    pcsize = cpu.PC().size
+    reset(cpu)
+    z = lsweep(p)
+    graphs = {}
+    handed = []          # (block, start, number of instructions when handed out)
+    steps = []
+
+    def graph(g):
+        if g == "G":
+            return z.G
+        if g not in graphs:
+            graphs[g] = cfg.graph()
+        return graphs[g]
+
+    for op in ops:
+        st = {"res": "ok", "blocks": [], "props": [], "ins": [], "exhausted": False}
+        try:
+            kind, loc, as_cst = op[0], op[1], op[2]
+            arg = cpu.cst(loc, pcsize) if as_cst else loc
+            st["cut_before"] = any(a == loc and len(b.instr) != n0 for (b, a, n0) in handed)
+            st["repeat"] = any(a == loc for (b, a, n0) in handed)
+            if kind in ("gb", "gbcut"):
+                b = z.getblock(arg)
+                blocks = [] if b is None else [b]
+                ins = [[0, op[3]]] if (kind == "gb" and op[3] is not None) else []
+            else:
+                it = z.iterblocks(arg)
+                blocks = list(itertools.islice(it, op[3]))
+                st["exhausted"] = len(blocks) < op[3]
+                it.close()
+                ins = op[4]
+            for b in blocks:
+                if not (hasattr(b, "instr") and all(is_instr(i) for i in b.instr)):
+                    st["res"] = "unmodelled"
+                    break
+                st["blocks"].append([dump_instr(i) for i in b.instr])
+                sup = b.support
+                st["props"].append([[ival(sup[0]), ival(sup[1])] if b.instr else None, b.length, list(b.raw())])
+                handed.append((b, ival(b.instr[0].address) if b.instr else None, len(b.instr)))
+            if st["res"] != "ok":
+                steps.append(st)
+                break
+            if kind == "gbcut" and blocks and blocks[0].instr:
+                a0 = blocks[0].instr[0].address
+                st["nl"] = blocks[0].cut(a0 + (op[3] - ival(a0)))
+            for (k, g) in ins:
+                if k >= len(blocks) or not blocks[k].instr:
+                    continue
+                b = blocks[k]
+                rec = {"g": g, "first": ival(b.instr[0].address), "n": len(b.instr)}
+                graph(g).add_vertex(cfg.node(b))
+                rec.update(dump_graph(graph(g)))
+                st["ins"].append(rec)
+        except BaseException as ex:
+            import traceback
+            tb = traceback.extract_tb(ex.__traceback__)
+            site = [(f.name, f.lineno) for f in tb if "amoco" in f.filename][-3:]
+            st = {"res": "raise", "exc": type(ex).__name__, "msg": str(ex)[:80], "site": site}
+            steps.append(st)
+            reset(cpu)
+            break
+        steps.append(st)
+    return steps
